@@ -28,6 +28,8 @@ PREFIXES = {
     'nop':  [0x00, 0x00],
     'dd':   [0xDD, 0x21],
     'jr':   [0x18, 0x00, 0x3E],
+    'skip': [0x28, 0x01, 0x3E],     # JR Z,+1 over the opcode byte of a two-byte instruction (the "LD A,n" skip trick)
+    'skip2': [0x28, 0x01, 0x3E, 0x06],
 }
 
 
@@ -66,14 +68,15 @@ def finish(res, st):
 
 def check_window(item):
     """('win', prefix key, nsym, after, map addresses (offsets) or None)"""
-    _, pkey, nsym, after, cmap = item
+    _, pkey, nsym, after, cmap = item[:5]
+    pin = item[5] if len(item) > 5 else None          # first symbolic byte fixed (splits a large window into parallel items)
     st = Stats()
     res = new_res()
     import skoolkit.snactl as sc
     prefix = PREFIXES[pkey]
     n = len(prefix) + nsym
     end = START + n
-    name = 'generate_ctls prefix=%s + %d symbolic byte(s) | %d byte(s) after end, code map %r' % (pkey, nsym, after, cmap)
+    name = 'generate_ctls prefix=%s + %d symbolic byte(s)%s | %d byte(s) after end, code map %r' % (pkey, nsym, '' if pin is None else ' (first = %d)' % pin, after, cmap)
     d = tempfile.mkdtemp(prefix='skverif_c14_')
     mapfile = None
     if cmap is not None:
@@ -88,6 +91,8 @@ def check_window(item):
         for k in range(nsym + after):
             v = sym_int('s%d' % k, 0, 255)
             path.assume(z3.Or(*[v.e == x for x in VALUES]))
+            if k == 0 and pin is not None:
+                path.assume(v.e == pin)
             snap[START + len(prefix) + k] = v
             syms.append(v)
         ctls = sc.generate_ctls(snap, START, end, mapfile, Cfg())
@@ -199,6 +204,11 @@ def main():
                     maps.append((0, len(prefix)))
                 for cmap in maps:
                     items.append(('win', pkey, nsym, after, cmap))
+    # executed code continuing after an instruction that a misaligned decode (from the skipped byte) sees differently
+    for pin in VALUES:
+        items.append(('win', 'skip2', 3, 0, (0, 3, 5, 6), pin))
+        items.append(('win', 'skip2', 3, 0, (0, 3, 5), pin))
+    items = [i for i in items if not (i[1] == 'skip2' and i[4] in (None, (0,), (0, 4)))]
     if args.only:
         items = [i for i in items if args.only in harness.item_name(i)]
     rep = harness.Report(
